@@ -333,4 +333,5 @@ def direct_call(tbl, mask, sid, mod, test, kw):
         return None
     data = np.ma.getdata(res)
     m = np.ma.getmaskarray(res)
-    return [None if mm else int(d) for d, mm in zip(np.asarray(data).ravel().tolist(), np.asarray(m).ravel().tolist())]
+    from .util import sint
+    return [None if mm else sint(d) for d, mm in zip(np.asarray(data).ravel().tolist(), np.asarray(m).ravel().tolist())]
